@@ -17,9 +17,11 @@
 //          "block":"bool"|"iter" (blocking next() as `bool(sub.next())` or through begin()/++ of the iterator)}
 // actions: SubscribeRecent(s,mode) SubscribeAt(s,pos,mode) SubscribeCopy(c,o) Leave(s) Ready(s)
 //          Subscribe(s) Fetch(s) Poll(s) NextWhole(s,style) PushCS(n) Close(how) KickCS(s,via) KickGone
+//          PlanCopy(a,c,o): the resumption handler of the parked waiter a (callback / resumed coroutine) will copy
+//          subscriber o into c -- inside the publisher's wake-up loop (WakeCopy, merged like Wake)
 //          (Wake / WFetch steps are merged into the step that caused them)
 // projection: {"closed","nextFree","pos","pubAlive","q":[...],
-//              "regs":[{"awt":subscriber id|0,"kicked","pos","used"}...],
+//              "regs":[{"awt":subscriber id|0,"kicked","pos","used"[,"woken" when the registration has that bit]}...],
 //              "subs":{"<id>":{"hnd","mode","pc","recv":[...],"res","wakes"}}}  (live subscribers)
 #include <cocls/publisher.h>
 #include "replay_common.h"
@@ -27,6 +29,7 @@
 #include <atomic>
 #include <coroutine>
 #include <deque>
+#include <functional>
 #include <limits>
 #include <optional>
 #include <thread>
@@ -124,12 +127,14 @@ struct Sub {
         else pc = "eos";
     }
     // a registered awaiter of the split style has been resumed by the library
+    std::function<void()> handler;      // what the program does when this waiter is resumed (PlanCopy)
     void on_wake(cocls::awaiter *a) {
         wakes++;
         total_wakes++;
         if (pc != "parked") flag("woken while " + pc);
         else pc = "fetch";
         if (a && (!awt || a != static_cast<cocls::awaiter *>(&*awt))) flag("foreign awaiter resumed");
+        if (handler) { auto h = std::move(handler); handler = nullptr; h(); }
     }
 };
 
@@ -207,6 +212,7 @@ struct World {
             jr.set("pos", r._pos);
             jr.set("used", r._used);
             jr.set("kicked", r._kicked);
+            if constexpr (requires { r._woken; }) jr.set("woken", r._woken);
             int owner = 0;
             if (!r._used && r._awt) {
                 // stale awaiter pointer of a subscriber that was destroyed while parked
@@ -338,6 +344,18 @@ struct World {
                 pub->publish(vals.begin(), vals.end());
             }
             settle_blocked();
+            return true;
+        }
+        if (a == "PlanCopy") {
+            // runs inside publish()/close()/kick(), on the resumed waiter's behalf, before the remaining waiters are resumed
+            int c = st.iarg(1), o = st.iarg(2);
+            subs.at(st.iarg(0))->handler = [this, c, o] {
+                Sub &orig = *subs.at(o);
+                if (orig.pc == "eos") return;       // nothing to continue from
+                Sub &s = fresh(c);
+                s.make(static_cast<const SubProbe &>(*orig.obj));
+                equip(s);
+            };
             return true;
         }
         if (a == "KickGone") {
